@@ -3,10 +3,11 @@
 # usage: tools/indexer_try_patch.sh <patch.diff>   -> HOLDS | BREAKS: <first Coq error> (+ the `not rendered` lines)
 # copies crates/ide/src of /repo to a temp dir, applies the patch, runs tools/translate/t_indexer.py on it and compiles the
 # rendering + coq/proofs/GenIndexerEq.v against the compiled model in /verif/coq/model (read-only).
+P=$(readlink -f "$1")
 T=$(mktemp -d /tmp/lines-try.XXXXXX)
 mkdir -p $T/repo/crates/ide $T/gen $T/proofs
 cp -r /repo/crates/ide/src $T/repo/crates/ide/src
-( cd $T/repo && patch -s -p1 < "$1" ) || { echo "PATCH-FAILED"; exit 1; }
+( cd $T/repo && patch -s -p1 < "$P" ) || { echo "PATCH-FAILED"; exit 1; }
 cd /verif/tools/translate
 python3 - <<PY || { echo "TRANSLATOR-REFUSES (whole file)"; rm -rf $T; exit 0; }
 import sys, importlib.util
